@@ -253,6 +253,12 @@ func (e *Engine) name(t *Term) *Term {
 	if t.K || len(t.S) < 48 {
 		return t
 	}
+	if t.Sort == SStr {
+		// character vectors stay structural: naming them would pull the string theory into the context
+		if _, ok := charVec(t); ok {
+			return t
+		}
+	}
 	n := e.fresh("t")
 	e.sol.Declare(n, t.Sort)
 	e.sol.Assert(&Term{S: "(= " + n + " " + t.S + ")", Sort: SBool})
